@@ -1,4 +1,5 @@
 """C06 - both halves of a bidirectional /io shell come from the same request."""
+import json, os
 import brokerlib as B
 import vlib
 
@@ -25,11 +26,52 @@ def check(run):
                  "with a unidirectional shell attached, half attached and in its tear-down window; n=3 (720 orders; every third in the quick tier) "
                  "idle and tear-down [thorough: all bases, n=4 sampled]; after admission a probe line is entered and every request's output half "
                  "is offered output, so cross-pairing is observable; non-trivial = an /io request was involved (always)")
+    # staggered arrivals: requests come and GO between the arrivals of others (whatever numbers requests is reused must not make keys collide)
+    def staggered(first_half, late_half, ends):
+        io = lambda si: {"op": "ioreq", "si": si, "so": si + 1, "wk": "both", "wfail": -1, "ffail": -1}
+        ops = [io(1), {"op": "go", "s": 1}, {"op": "go", "s": 2},            # 'old' attached
+               io(3)]                                                          # 'slow' arrives while old is there (both halves wait)
+        ops += {"out": [{"op": "data", "s": 2, "d": "", "err": "eof"}, {"op": "release", "s": 2}, {"op": "release", "s": 1}],
+                "in": [{"op": "cancel", "s": 1}, {"op": "release", "s": 1}, {"op": "release", "s": 2}]}[ends]   # old hangs up and returns
+        ops += [{"op": "go", "s": 3 if first_half == "in" else 4},            # one half of 'slow' is admitted
+                io(5),                                                         # 'late' arrives only now
+                {"op": "go", "s": 6 if late_half == "out" else 5},             # ... and one of ITS halves goes for the free side
+                {"op": "go", "s": 4 if first_half == "in" else 3}, {"op": "go", "s": 5 if late_half == "out" else 6},
+                {"op": "line", "l": B.K(b"probe")}]
+        ops += [{"op": "data", "s": h, "d": B.K(b"out%d" % h), "err": ""} for h in (4, 6)]
+        return ops
+    stg = [staggered(a, b, e) for a in ("in", "out") for b in ("in", "out") for e in ("in", "out")]
+    B.run_stream(run, binp, "staggered", 6, stg, CLAUSES,
+                 "staggered arrivals: an /io shell is attached, a second request arrives and waits, the first hangs up and returns, one half of the "
+                 "second is admitted, only then a third request arrives and goes for the free side - in all 8 combinations of which halves and which "
+                 "side of the first shell ends first")
     n = 300 if run.tier == "quick" else 5000
     hs2 = [B.gen_history(run.rng, run.rng.choice([10, 20, 40]), "mixed") for _ in range(n)]
     B.run_stream(run, binp, "histories", 6, hs2, CLAUSES, "random mixed /i /o /io histories (see C01)")
+    # at the HTTP surface: two /io requests from ONE client address arriving together (what the handlers hand the broker must keep them apart)
+    okh, hbin, hlog = vlib.build_overlay_test(run.rundir, "internal/hsrv", go="go")
+    if not okh:
+        run.oblige("hsrv harness builds against /repo", False, hlog)
+    else:
+        import concurrent.futures as cf
+        nproc, rounds = (6, 8) if run.tier == "quick" else (8, 60)
+        hc = [{"i": k, "cfg": {}, "acts": [{"a": "iopair", "rounds": rounds}]} for k in range(nproc)]
+        with cf.ThreadPoolExecutor(max_workers=nproc) as ex:
+            outs = list(ex.map(lambda k: vlib.run_overlay_test(hbin, "TestVerifHsrv", [hc[k]], run.rundir, tag="c06io_%d" % k,
+                                                                  env=dict(os.environ, VERIF_TMP=run.rundir), timeout=600), range(nproc)))
+        pairs = [p for o in outs if o[0] for p in ((o[0][0].get("acts") or [{}])[0].get("pairs") or [])]
+        crossed = [p for p in pairs if p.get("in") and p.get("out") and set(p["in"]) != set(p["out"])]
+        attached = sum(1 for p in pairs if p.get("in") and p.get("out"))
+        for b in crossed[:1]:
+            run.violation("http-io-crosspair", "two /io requests from the same client address arrived together and the shell was made of halves of BOTH: the "
+                          "operator's line went to one request, the displayed output came from the other",
+                          {"stream": "http-io", "input": {"requests_at_once": 2, "client": "127.0.0.1 (both)"}, "detail": b})
+        run.oblige("HTTP surface: %d rounds of two simultaneous /io requests from one address on a real Server - the shell's input and output belong to "
+                   "the same request (%d rounds ended with a full shell)" % (len(pairs), attached),
+                   not crossed and len(pairs) == nproc * rounds and attached >= len(pairs) // 2, json.dumps(crossed[:3]) + str([o[1] for o in outs if o[1]][:1]))
+        run.cov["http_io_rounds"] = len(pairs)
     # really concurrent requests (a one-sided TEST: the non-atomic-counter kind of defect only shows under a real scheduler)
-    import json, os
+    pass
     outf = os.path.join(run.rundir, "stress.json")
     rounds = 1500 if run.tier == "quick" else 40000
     try:
